@@ -270,6 +270,23 @@ def _run(tok):
         nd = unnode(a[0])
         with _Prf(a[2]):
             return nodeS(nd.derive_path(unlist(int, a[1])))
+    if op == "i2be":
+        return hx(helper.int_to_big_endian(int(a[0]), int(a[1])))
+    if op == "i2le":
+        return hx(helper.int_to_little_endian(int(a[0]), int(a[1])))
+    if op == "be2i":
+        return str(helper.big_endian_to_int(unhex(a[0])))
+    if op == "le2i":
+        return str(helper.little_endian_to_int(unhex(a[0])))
+    if op == "h_addr":
+        h, t, wv = unhex(a[1]), unbool(a[2]), int(a[3])
+        if a[0] == "p2pkh":
+            return sx(helper.h160_to_p2pkh_address(h, testnet=t))
+        if a[0] == "p2sh":
+            return sx(helper.h160_to_p2sh_address(h, testnet=t))
+        if a[0] == "p2wpkh":
+            return sx(_none_err(helper.h160_to_p2wpkh_address(h, testnet=t, witver=wv)))
+        return sx(_none_err(helper.h256_to_p2wsh_address(h, testnet=t, witver=wv)))
     if op == "ckd_retry":
         nd = unnode(a[0])                    # ONE parent object for the whole sequence of requests
         outs = []
